@@ -1351,6 +1351,8 @@ def _dyn_call(ex, recv, trait, meth, args):
         v = v.extra[0]
     if not isinstance(r, Ref):
         r = Ref([v], 0)
+    if type(v).__name__ == 'OsHandle':
+        return call_model(ex, '<File as %s>::%s' % (trait.split('::')[-1], meth), [r] + args)
     if isinstance(v, Cursor):
         if meth == 'read':
             return call_model(ex, '<std::io::Cursor<Cow<[u8]>> as Read>::read', [r] + args)
@@ -1580,7 +1582,7 @@ def m_embed_get(ex, c, a, m):
     return NONE()
 
 
-@model(r'rust_embed::Metadata::(last_modified|created)|Metadata::(last_modified|created)')
+@model(r'rust_embed::Metadata::(last_modified|created)')
 def m_embed_meta(ex, c, a, m):
     return NONE()
 
@@ -1660,3 +1662,6 @@ def m_pin_get(ex, c, a, m):
 @model(r"Pin::<.+>::(new|new_unchecked)")
 def m_pin_new(ex, c, a, m):
     return Adt('Pin', None, [a[0]])
+
+
+from . import osm   # noqa: E402  (registers the OS contract model)
